@@ -2684,20 +2684,19 @@ type slicedReaderAt struct {
 }
 
 func (r *slicedReaderAt) ReadAt(bs []byte, off int64) (n int, err error) {
-	if off < r.off || int(off-r.off) > len(bs) {
+	if off < r.off || off-r.off > int64(len(r.bs)) {
 		return 0, ErrIllegalState
 	}
 
 	o := int(off - r.off)
-	available := len(r.bs) - o
 
-	copy(bs, r.bs[o:minInt(available, len(bs))])
+	n = copy(bs, r.bs[o:])
 
-	if len(bs) > available {
-		return available, io.EOF
+	if n < len(bs) {
+		return n, io.EOF
 	}
 
-	return available, nil
+	return n, nil
 }
 
 func (s *ImmuStore) ExportTx(txID uint64, allowPrecommitted bool, skipIntegrityCheck bool, tx *Tx) ([]byte, error) {
